@@ -73,7 +73,7 @@ fn main() {
         Some("selftest") => {
             // determinism on a sample: every family, each seed twice, same event hash
             let n: u64 = args.get(2).and_then(|s| s.parse().ok()).unwrap_or(8);
-            let fams = ["rc-mixed", "rc-weak", "rc-cells", "rc-wcells", "rc-bulk", "ebr", "ebr-churn", "ebr-longcs", "ebr-private", "guards", "tls", "dir-t1", "dir-t2", "dir-t3", "dir-t4", "dir-t5", "dir-t6", "dir-t7", "dir-t8", "dir-t9", "dir-t10", "dir-t11", "dir-w", "dir-c", "client", "queue", "list", "chain", "chain-weak", "agesweep"];
+            let fams = ["rc-mixed", "rc-weak", "rc-cells", "rc-wcells", "rc-bulk", "ebr", "ebr-churn", "ebr-longcs", "ebr-private", "guards", "tls", "dir-t1", "dir-t2", "dir-t3", "dir-t4", "dir-t5", "dir-t6", "dir-t7", "dir-t8", "dir-t9", "dir-t10", "dir-t11", "dir-t12", "dir-t13", "dir-w", "dir-c", "client", "queue", "list", "chain", "chain-weak", "agesweep"];
             let mut bad = 0;
             let mut total = 0;
             for f in fams {
@@ -137,6 +137,36 @@ fn main() {
             for (k, v) in counts {
                 println!("{:6} x {}", v, k);
             }
+        }
+        Some("famfind") => {
+            // circ-sim famfind <property> <family> <seed0> <n> <signature> <out.json>: first run of the family
+            // that shows <signature>, minimised, written as a replay file (for findings/ on a pre-fix tree)
+            let prop = args.get(2).cloned().unwrap_or_default();
+            let fam = args.get(3).cloned().unwrap_or_default();
+            let s0: u64 = args.get(4).and_then(|s| s.parse().ok()).unwrap_or(1);
+            let n: u64 = args.get(5).and_then(|s| s.parse().ok()).unwrap_or(1);
+            let want = args.get(6).cloned().unwrap_or_default();
+            let out = args.get(7).cloned().unwrap_or_default();
+            for seed in s0..s0 + n {
+                let desc = gen::generate(&prop, &fam, seed);
+                let r = runner::fork_run(&desc);
+                let mut sigs = vec![r.signature()];
+                if let Some(e) = r.json.get("extra") {
+                    for s in e.geta("soft") {
+                        sigs.push(s.gets("signature").to_string());
+                    }
+                }
+                if sigs.iter().any(|s| *s == want) {
+                    let first = check::first_record(&desc, &r, &want, vec![prop.clone()], r.json.gets("detail"));
+                    let _ = std::fs::create_dir_all(format!("{}/replays", check::home()));
+                    let path = minimize::report(&prop, &want, &first);
+                    let _ = std::fs::copy(&path, &out);
+                    println!("seed {}: {} -> {}", seed, want, out);
+                    std::process::exit(0);
+                }
+            }
+            println!("not found in {} runs", n);
+            std::process::exit(1);
         }
         Some("fam") => {
             // circ-sim fam <property> <family> <seed0> <n>: run one family, print a summary
